@@ -644,7 +644,7 @@ func docFor(r *core.Rand, t reflect.Type, depth int) string {
 func pickType(c *core.Case) reflect.Type {
 	switch c.Index % 5 {
 	case 0:
-		t := jtypes.Library[c.Rng.Intn(len(jtypes.Library))]
+		t := jtypes.DecodeLibrary[c.Rng.Intn(len(jtypes.DecodeLibrary))]
 		switch c.Rng.Intn(5) {
 		case 0:
 			return reflect.SliceOf(t)
